@@ -164,12 +164,34 @@ def run_rebuild(shard, mon, S, table):
             o = observe(S.IBAN.random, cc, random=Random(f"{env.seed()}/C09r/{cc}/{k}"))
             if o.ok:
                 cands.append(str(o.value))
+        # listed banks of the country (their records may name their own algorithm)
+        if cc in N.CHECK_FIELD:
+            from vf.props.c12 import build_iban_around  # noqa: PLC0415
+            from vf.ref import lookup  # noqa: PLC0415
+
+            keys = [k for k in sorted(lookup.by_key()) if k[0] == cc]
+            if len(keys) > (60 if shard["tier"] == "quick" else 10**9):
+                keys = rng.sample(keys, 60)
+            for _, code in keys:
+                t = build_iban_around(cc, code, table, rng)
+                fb = N.force_valid(cc, t[4:]) if t else None
+                if fb and R.matches_spec(spec["bban_spec"], fb):
+                    s_, e_ = N.CHECK_FIELD[cc]
+                    kcls = R.position_classes(spec["bban_spec"])[s_]
+                    alt = fb[:s_] + "".join(kcls[(kcls.index(c) + 1) % len(kcls)] for c in fb[s_:e_]) + fb[e_:]
+                    cands += [R.make_iban(cc, fb), R.make_iban(cc, alt)]
         done = 0
         for text in cands:
             o = observe(S.IBAN, text, validate_bban=True)
             if not o.ok:
-                mon.tally("not_nationally_valid_skipped")
-                continue
+                # second route to "nationally valid": an object built with default flags, validated afterwards
+                o_b = observe(S.IBAN, text)
+                if o_b.ok and observe(o_b.value.validate, validate_bban=True).ok:
+                    o = o_b
+                    mon.tally("nationally_valid_only_via_later_validate")
+                else:
+                    mon.tally("not_nationally_valid_skipped")
+                    continue
             ib = o.value
             comps = {c: getattr(ib, c) for c in data.COMPONENTS if c in pos}
             o2 = observe(S.BBAN.from_components, cc, **comps)
